@@ -7,9 +7,7 @@ Import ListNotations.
 Local Open Scope string_scope.
 Local Open Scope Z_scope.
 Definition signal_sites : list sigsite :=
-  [mksite "src/IO/HDF5File.cpp" 26 "signal" true ["SIGINT"; "SIG_IGN"] (SElsewhere);
-   mksite "src/IO/HDF5File.cpp" 28 "signal" true ["SIGINT"; "_handler"] (SElsewhere);
-   mksite "src/main.cpp" 85 "signal" true ["SIGINT"; "Display::SIGINT_handler"] (SMainTop 1)].
+  [mksite "src/main.cpp" 85 "signal" true ["SIGINT"; "Display::SIGINT_handler"] (SMainTop 1)].
 (* index of the first top-level statement of main() that contains a VERIF_POINT hook *)
 Definition main_first_point_stmt : Z := 2.
 (* body of Display::SIGINT_handler *)
